@@ -369,6 +369,59 @@ def step (d : D) (line : String) : D × String :=
         else finish (run (params 1024 none) d.sys [.clipCall, .clipCancel]) "err" "err"
       | none => (d, "bad-op\tbad-op\tbad-op")
     | _, _ => (d, "bad-op\tbad-op\tbad-op")
+  | "race" :: ord :: r :: c :: r2 :: c2 :: seqf =>
+    -- the cursor-position hand-off against the requester's time-out, as runs of the LTS (schedules forced
+    -- on the real code through the yield point after the request flag is taken)
+    match r.toInt?, c.toInt?, r2.toInt?, c2.toInt?, parseSeq seqf with
+    | some r, some c, some r2, some c2, some (_, k, _) =>
+      let p := params 1024 none
+      let pre : List Label := if p.cursorDrain then [.cursorDrain] else []
+      let rep1 : Label := .input (.csi [] [[r], [c]] 82)
+      let rep2 : Label := .input (.csi [] [[r2], [c2]] 82)
+      let got (s : Option Sys) (n : Nat) : String :=
+        match s.bind (fun t => t.cursorGot[n]?) with
+        | some (a, b) => s!"{a - 1},{b - 1}"
+        | none => "-1,-1"
+      let s0 := { d.sys with cursorGot := [], queue := [] }
+      let (sA, res1, sB, res2) : Option Sys × String × Option Sys × String :=
+        if ord == "order=reply-first" then
+          let sA := run p s0 (pre ++ [.cursorCall, rep1, .step, .cursorRecv])
+          let sB := sA.bind fun t => run p t (pre ++ [.cursorCall, rep2, .step, .cursorRecv])
+          (sA, got sA 0, sB, got sB 1)
+        else if ord == "order=timeout-first" then
+          let sA := run p s0 (pre ++ [.cursorCall, rep1, .cursorTimeout, .step])
+          let sB := sA.bind fun t => run p t (pre ++ [.cursorCall, rep2, .step, .cursorRecv])
+          (sA, got sA 0, sB, got sB 0)
+        else
+          let sA := run p s0 (pre ++ [.cursorCall, rep1, .cursorTimeout])
+          let sB := sA.bind fun t => run p t (pre ++ [.cursorCall, .step, .cursorRecv, rep2, .step])
+          (sA, got sA 0, sB, got sB 0)
+      match sA, sB with
+      | some _, some t =>
+        -- whatever is still pending is performed with nobody waiting (posts go to the queue)
+        let (t2, evs, _, _) := perform k p false 64 { t with queue := [] } (t.queue.toArray.map (renderEvent k)) #[] none
+        let t3 := { t2 with cursorGot := [], queue := [] }
+        let mc := s!"res1={res1} res2={res2} ev={joinA evs} alive {canonState t3}"
+        let implEvs := evsOf impl
+        let verdict :=
+          if impl.contains "wedged" || impl.contains "hang" || impl.contains "panic" || impl.contains "blocked-after-release" then
+            s!"FAIL the cursor-position hand-off blocked the input loop or the requester: {impl}"
+          else if impl.contains "not-held" then "FAIL the schedule could not be forced (yield point not reached)"
+          else if !implEvs.isEmpty then
+            s!"FAIL every cursor-position report here answers a query Vaxis wrote while its request was standing, yet the application received {implEvs} (a reply came out as user input)"
+          else
+            let ir1 := ((impl.splitOn " ").find? (·.startsWith "res1=")).getD ""
+            let ir2 := ((impl.splitOn " ").find? (·.startsWith "res2=")).getD ""
+            let want1 := if ord == "order=reply-first" then s!"res1={r - 1},{c - 1}" else "res1=-1,-1"
+            -- the second call gets the terminal's answer to it — or, in the recall schedule, the answer the
+            -- first call no longer waited for (the protocol has no query ids)
+            let want2 := if ord == "order=recall" then [s!"res2={r - 1},{c - 1}", s!"res2={r2 - 1},{c2 - 1}"] else [s!"res2={r2 - 1},{c2 - 1}"]
+            if ir1 != want1 then s!"FAIL the first CursorPosition must return {want1}, got {ir1}"
+            else if !want2.contains ir2 then s!"FAIL the second CursorPosition must return one of {want2}, got {ir2}"
+            else "ok"
+        ({ d with sys := t3 }, s!"{mc}\t{impl}\t{verdict}")
+      | _, _ => (d, s!"not-a-run\t{impl}\tbad-op")
+    | _, _, _, _, _ => (d, "bad-op\tbad-op\tbad-op")
   | "stream" :: rest =>
     ({ d with stream := true, wf := (kv rest "wf") == some "1", smallQueue := (kv rest "queue") != some "0" }, "-\t-\t-")
   | "report" :: rest =>
